@@ -85,7 +85,7 @@ Definition reaches_handler (cfg : config) (s : st) (o : op) : bool :=
   | OReq r =>
       match r_route r with
       | RNotFound | RBadMethod | ROpaque => false
-      | _ => match validate_header (clock s) (cfg_host cfg) (r_cred r) with Principal _ => true | _ => false end
+      | _ => match validate_header (clock s) (cfg_host cfg) (cfg_secret cfg) (r_cred r) with Principal _ => true | _ => false end
       end
   | OWs path (Some k) _ =>
       String.eqb (prefix_of_path (slashify path)) "session"
